@@ -130,3 +130,76 @@ func ruleOPTIONMAP(c *Ctx) {
 		c.add(rule, "count:", token.NoPos, CountDropped, true, "only %d option assignments found (>= 40 confirmed by hand)", n)
 	}
 }
+
+// lalrOptionRenames: fields of lalr.Options whose source option has another name.
+var lalrOptionRenames = map[string]string{
+	"Optimize": "OptimizeTables", // grammar option optimizeTables
+	"Debug":    "DebugTables",    // compiler.Params.DebugTables
+}
+
+// AGREE(option-plumbing): the table generator is configured from the grammar's options through
+// one composite literal lalr.Options{...} in compileParser. Each field that is filled from a
+// field of grammar.Options or compiler.Params must be filled from the field of the same name
+// (two audited renames). A neighbouring bool of the same record type-checks just as well and
+// silently turns, say, noEmptyRules into defaultReduce.
+func ruleOPTPLUMBING(c *Ctx) {
+	const rule = "AGREE(option-plumbing)"
+	pkg := c.Pkg("compiler")
+	if pkg == nil {
+		c.Lost(rule, "compiler", "package not loaded")
+		return
+	}
+	n := 0
+	for _, file := range pkg.Syntax {
+		ast.Inspect(file, func(nd ast.Node) bool {
+			cl, ok := nd.(*ast.CompositeLit)
+			if !ok {
+				return true
+			}
+			t := pkg.TypesInfo.TypeOf(cl)
+			if t == nil || !isNamedType(t, "lalr", "Options") {
+				return true
+			}
+			for _, el := range cl.Elts {
+				kv, ok := el.(*ast.KeyValueExpr)
+				if !ok {
+					continue
+				}
+				k, ok := kv.Key.(*ast.Ident)
+				if !ok {
+					continue
+				}
+				// selectors X.Options.F / X.params.F inside the value
+				ast.Inspect(kv.Value, func(v ast.Node) bool {
+					sel, ok := v.(*ast.SelectorExpr)
+					if !ok {
+						return true
+					}
+					inner, ok := sel.X.(*ast.SelectorExpr)
+					if !ok || (inner.Sel.Name != "Options" && inner.Sel.Name != "params") {
+						return true
+					}
+					if inner.Sel.Name == "params" && ast.Node(sel) != ast.Node(kv.Value) {
+						return true // an extra gate from the invocation (…&& !c.params.CheckOnly), not the source
+					}
+					n++
+					key := "compiler.compileParser:lalr.Options." + k.Name
+					want := k.Name
+					if r, ok := lalrOptionRenames[k.Name]; ok {
+						want = r
+					}
+					if sel.Sel.Name == want {
+						c.Ok(rule, key, kv.Pos(), "lalr.Options.%s is filled from %s.%s", k.Name, inner.Sel.Name, sel.Sel.Name)
+					} else {
+						c.Bad(rule, key, kv.Pos(), "lalr.Options.%s is filled from %s.%s, expected %s.%s: another option switches this behaviour of the table generator on", k.Name, inner.Sel.Name, sel.Sel.Name, inner.Sel.Name, want)
+					}
+					return false
+				})
+			}
+			return true
+		})
+	}
+	if n < 6 {
+		c.add(rule, "count:", token.NoPos, CountDropped, true, "only %d option-sourced fields of lalr.Options found (7 confirmed by hand)", n)
+	}
+}
